@@ -41,6 +41,8 @@ Lemma tlt_tleb_trans (a b c : timeR) : tlt a b -> tleb b c = true -> tlt a c. Pr
 Lemma tlt_tleb (a b : timeR) : tlt a b -> tleb a b = true. Proof. intros. tsolve. Qed.
 Lemma tlt_irrefl (a : timeR) : ~ tlt a a. Proof. intros K. tsolve. Qed.
 Lemma tlt_neq (a b : timeR) : tlt a b -> teqb a b = false /\ teqb b a = false. Proof. intros. split; tsolve. Qed.
+Lemma tlt_neq1 (a b : timeR) : tlt a b -> teqb a b = false. Proof. intros K. now destruct (tlt_neq _ _ K). Qed.
+Lemma tlt_neq2 (a b : timeR) : tlt a b -> teqb b a = false. Proof. intros K. now destruct (tlt_neq _ _ K). Qed.
 Lemma tleb_neq_tlt (a b : timeR) : teqb a b = false -> tleb b a = true -> tlt b a.
 Proof.
   destruct a as [x|], b as [y|]; unfold tlt; cbn [tleb teqb]; numR; intros E L; try discriminate; auto.
